@@ -26,7 +26,7 @@ ASSUMPTIONS = [
 COMPONENTS = {'real': ['yldprolog.engine fact store, builtins asserta/assertz/retract/retractall, clear, query', 'compiled wrapper clauses (real compiler output)'],
               'stub': ['consumer / scheduler of the retract generators'],
               'oracle': ['ordered-list model (ypsim.models.FactStore) compared op by op, full read-back after every op']}
-REQUIRED_PROBES = ('bound_argument_readbacks', 'op_assert', 'op_retract', 'op_retractall', 'op_query', 'op_clear', 'route_fact', 'route_query', 'route_wrap', 'route_inline',
+REQUIRED_PROBES = ('op_badgoal', 'bound_argument_readbacks', 'op_assert', 'op_retract', 'op_retractall', 'op_query', 'op_clear', 'route_fact', 'route_query', 'route_wrap', 'route_inline',
                    'form_bound', 'retract_abandoned', 'retract_suspended_across_ops', 'op_on_predicate_without_facts', 'arity0_ops')
 
 KEYS = [('p', 0), ('p', 1), ('p', 2), ('q', 1), ('r', 3), ('flag', 0), ('zz', 1), ('yy', 0)]
@@ -115,8 +115,12 @@ def gen(seed, tier):
             ops.append(['rend', rng.choice(('close', 'drop', 'resume'))])
         elif k < 0.97:
             ops.append(['query', rng.choice(('api', 'inline')), ki, gen_pattern(rng, ar, rng.choice((0.0, 0.5, 1.0)))])
-        else:
+        elif k < 0.985:
             ops.append(['clear'])
+        else:
+            # a malformed goal: whatever the builtin does with it (raise, fail), the store must be as before
+            ops.append(['badgoal', rng.choice(('asserta', 'assertz', 'retract', 'retractall')), rng.choice(('query', 'wrap')),
+                        rng.choice(('int', 'unbound', 'string', 'atom-store-name'))])
     return {'ops': ops}
 
 
@@ -134,6 +138,8 @@ def show_op(op):
         return '%s[%s,%s] %s' % (op[0], op[1], op[2], show_goal(op[3], op[4]))
     if op[0] == 'query':
         return 'query[%s] %s' % (op[1], show_goal(op[2], op[3]))
+    if op[0] == 'badgoal':
+        return '%s[%s] of a malformed goal (%s)' % (op[1], op[2], op[3])
     return ' '.join(str(x) for x in op)
 
 
@@ -401,6 +407,25 @@ def execute(plan):
                     log.violation('wrong-answers', {'op': show_op(op), 'engine': [[TM.show(x) for x in r] for r in got[:6]],
                                                     'model': [[TM.show(x) for x in r] for r in want[:6]]})
                     break
+            elif kind == 'badgoal':
+                _, bk, route, what = op
+                if ex.task:
+                    log.ev('noop-busy')
+                    continue
+                log.count('cases'); log.count('op_badgoal')
+                bad = {'int': 123, 'unbound': yp.variable(), 'string': 'p(a)', 'atom-store-name': yp.functor('p', [yp.variable()])._args[0]}[what]
+                outcome = 'ok'
+                try:
+                    g = yp.query(bk, [bad]) if route == 'query' else yp.query('w_%s' % bk, [bad])
+                    n_ = 0
+                    for _ in g:
+                        n_ += 1
+                        if n_ > 3:
+                            break
+                    outcome = 'answers:%d' % n_
+                except Exception as e:
+                    outcome = 'EXC'
+                log.ev('badgoal', bk, route, what, outcome)
             elif kind == 'clear':
                 if ex.task:
                     log.ev('noop-busy')
